@@ -639,7 +639,7 @@ func libTop(g string) bool {
 		if strings.HasPrefix(l, "\t") || l == "" {
 			continue
 		}
-		if strings.HasPrefix(l, "runtime.") || strings.HasPrefix(l, "sync.") || strings.HasPrefix(l, "internal/") {
+		if strings.HasPrefix(l, "runtime.") || strings.HasPrefix(l, "sync.") || strings.HasPrefix(l, "internal/") || strings.HasPrefix(l, "time.Sleep(") {
 			continue
 		}
 		return libFrameRe.MatchString(l)
